@@ -80,6 +80,10 @@ def run_contract(world, con, tier="quick", only_case=None):
         except ContractError as e:
             out.status, out.reason = "undecided", "contract-out-of-date: %s [case %s]" % (e, case_name)
             break
+        except PyExc as e:
+            out.status, out.reason = "undecided", "contract-out-of-date: a contract clause raised %s (%s) [case %s]" % (
+                e.exc.cls.name, e.exc.origin, case_name)
+            break
         out.obligations.extend(ex.obligations)
         out.paths += ex.paths
         out.used_externals |= ex.used_externals
@@ -184,7 +188,8 @@ def _frame_obligation(ex, con, exit_text):
         org = getattr(obj, "origin", "")
         if isinstance(org, str) and org.startswith("param:"):
             pname = org[6:]
-            if not any(m == pname or m.startswith(pname + ".") or m.startswith(pname + "[") for m in con.modifies):
+            if not any(m == pname or m.startswith(pname + ".") or m.startswith(pname + "[") or pname.startswith(m + ".")
+                       for m in con.modifies):
                 bad.append("%s.%s" % (pname, what))
     if con.frame is not None or bad:
         ex.oblige("frame", "no_input_mutation", z3.BoolVal(not bad), exit_text=exit_text,
